@@ -84,7 +84,7 @@ pub const CLASS_PLACEHOLDER: &[&str] = &["C_1", "C_23", "C_456"];
 pub const FIELD_PLACEHOLDER: &[&str] = &["f_1", "f_22", "f_333"];
 pub const METHOD_PLACEHOLDER: &[&str] = &["m_1", "m_33", "m_444"];
 pub const PARAM_PLACEHOLDER: &[&str] = &["p_0", "p_1", "p_22"];
-pub const PACKAGES: &[&str] = &["", "", "a/", "net/minecraft/", "net/minecraft/unmapped/", "com/x/y/", "b/c/", "日/"];
+pub const PACKAGES: &[&str] = &["", "", "a/", "net/minecraft/", "net/minecraft/unmapped/", "com/x/y/", "b/c/", "日/", "java/lang/", "java/", "javax/x/", "net/minecraftx/"];
 pub const EXTERNAL_CLASSES: &[&str] = &["java/lang/Object", "java/lang/String", "ext/Unmapped", "L", "I", "a/L$I", "ext/Outer$Inner", "V"];
 pub const PRIMS: &[&str] = &["I", "J", "Z", "B", "C", "S", "F", "D"];
 pub const DOC_LINES: &[&str] = &[
